@@ -96,10 +96,48 @@ def spawn_workers(prop, tier, seed, build_dir, nworkers, params, budgets,
     return results
 
 
+def function_universe(build_dir):
+    """'file:qualname' of every function defined in the built package
+    (walks the code objects of each source file)."""
+    out = set()
+    root = os.path.join(build_dir, "gtirb")
+    for fn in sorted(os.listdir(root)):
+        if not fn.endswith(".py"):
+            continue
+        try:
+            top = compile(open(os.path.join(root, fn)).read(), fn, "exec")
+        except Exception:
+            continue
+        work = [top]
+        while work:
+            c = work.pop()
+            for k in c.co_consts:
+                if hasattr(k, "co_qualname"):
+                    work.append(k)
+                    # functions only (class bodies run at import time,
+                    # before the monitor is switched on)
+                    if not k.co_name.startswith("<") and k.co_flags & 0x1:
+                        out.add("%s:%s" % (fn, k.co_qualname))
+    return out
+
+
+def anchor_files(prop):
+    try:
+        for line in open(os.path.join(VERIF, "properties.jsonl")):
+            p = json.loads(line)
+            if p["id"] == prop:
+                return [os.path.basename(f) for f in p["anchors"]["files"]
+                        if f.startswith("python/gtirb/")]
+    except Exception:
+        pass
+    return []
+
+
 def merge(results):
     counters = collections.Counter()
     hashes = collections.defaultdict(set)
     samples, notes, inconclusive, fatals = [], set(), [], []
+    reached = set()
     violations = {}
     vcounts = collections.Counter()
     backends = collections.Counter()
@@ -123,11 +161,13 @@ def merge(results):
         if r.get("protobuf_backend"):
             backends[r["protobuf_backend"]] += 1
         meta = r.get("meta") or meta
+        reached.update(r.get("functions_reached", []))
         cpu += r.get("cpu_s", 0)
     return dict(counters=counters, hashes=hashes, samples=samples,
                 notes=sorted(notes), inconclusive=inconclusive,
                 fatals=fatals, violations=violations, vcounts=vcounts,
-                backends=dict(backends), meta=meta, cpu_s=round(cpu, 1))
+                backends=dict(backends), meta=meta, cpu_s=round(cpu, 1),
+                reached=reached)
 
 
 def write_replay(prop, rec):
@@ -291,6 +331,8 @@ def main(argv=None):
         "samples": m["samples"] or ["<no sample recorded>"],
         "counters": nested(m["counters"]),
         "distinct": {k: len(v) for k, v in sorted(m["hashes"].items())},
+        "distinct_is_lower_bound": bool(any(
+            k.startswith("distinct_overflow:") for k in m["counters"])),
         "reach_requirements": reach_report,
         "protobuf_backends_observed": per_config,
         "workers": len(all_results),
@@ -307,6 +349,25 @@ def main(argv=None):
         "violation_counts": dict(m["vcounts"]),
         "inconclusive_reasons": reasons,
     }
+    try:
+        uni = function_universe(build_dir)
+        anch = set(anchor_files(prop))
+        reached = {f for f in m["reached"] if not f.split(":")[1].startswith(
+            "<") and "<" not in f.split(":")[1].split(".")[-1]}
+        in_anchor = {f for f in uni if f.split(":")[0] in anch}
+        coverage["code_reach"] = {
+            "how": "sys.monitoring PY_START per code object in the worker "
+                   "processes (evidence only)",
+            "package_functions": len(uni),
+            "package_functions_entered": len(uni & reached),
+            "anchored_files": sorted(anch),
+            "anchored_functions": len(in_anchor),
+            "anchored_functions_entered": len(in_anchor & reached),
+            "anchored_functions_not_entered": sorted(
+                in_anchor - reached)[:80],
+        }
+    except Exception as e:
+        coverage["code_reach"] = {"error": str(e)}
     if meta.get("exhaustive"):
         coverage["exhaustive"] = bool(meta["exhaustive"])
     for k, v in (m.get("extra_coverage") or {}).items():
